@@ -65,12 +65,16 @@ def gen_scripts(ctx, quick, after=False, outs=("ok", "ok", "ok", "err"), per=Non
                 out = rnd.choice(outs)
                 if ck == "signal" and out.startswith("panic"):
                     out = "ok"   # the code between Signal*MicroTask and done() is the caller's own, not managed
+                if ck == "service" and rnd.random() < 0.25:
+                    out = "restartnow"   # returns an error wrapping ErrRestartNow, before as well as after the cancellation
                 it = {"id": "i%d" % (i + 1), "kind": ck, "out": out, "done": rnd.choice([1, 2, 3])}
                 if ck == "service" and out != "ok" and not after and rnd.random() < 0.6:
                     it["bo"] = 6000    # still in its restart back-off when the module is stopped
                 items.append(it)
             pol = ["stopper" if a == 0 else "fn" if a == -1 else "i%d" % a for a in g["policy"]]
             scripts.append({"items": items, "hasStopFn": g["hasStopFn"], "dep": True,
+                            # every fourth stop routine fails: the stop sequence goes on all the same
+                            "stopErr": bool(g["hasStopFn"]) and rnd.random() < 0.25,
                             "mode": rnd.choice(["shutdown", "manage"]), "probes": True, "waitAgain": after,
                             "policy": pol})
     return scripts
